@@ -92,6 +92,19 @@ CLAIMS['C11'] = dict(
     note=('Narrow claim: every other layout, file-based construction, in-edges, transpose, sorting, binary-search lookup, NUMA options and local ranges are NOT decided. '
           'Trusted: callbacks are deterministic functions; allocation dropped (arrays supplied); size bounds.'))
 
+CLAIMS['C05'] = dict(
+    text=('Proof, per function, for five of the six barriers: the re-initialisation tables (_reinit of the counting, MCS, dissemination and topology-aware barriers; OneWayBarrier::reinit) are proved for every '
+          'participant count within the configuration bound and any previous state, for an arbitrary node/round/socket (tree shape, partner (s+2^r) mod P, ceil(log2 P) rounds, arrival counts = child sockets + '
+          'non-leader threads for ANY thread-to-socket table); every wait() is proved as a thread-modular STEP contract with per-word ghost records and a logical clock: arrival published before the release '
+          'is awaited, release observed before the wake-up writes, phase state (counter / child slots / sense / parity) re-armed for the next phase before anybody can be released, flags of the other parity untouched; '
+          'OneWayBarrier::wait as a monitor step (count re-armed only by the last thread to leave, under the mutex). '
+          'Phase separation, absence of a thread that waits forever, and reuse are then checked by BOUNDED runs (never counted as proof) of the same extracted wait()/_reinit bodies under CBMC threads: '
+          '2 threads x 3 phases and 3 threads x 2 phases per barrier (thorough: 3x3, 4x2, more socket topologies).'),
+    note=('The global statement (all participant counts, all phases, all interleavings) is NOT proved: the step contracts are per call and the runs are bounded and sequentially consistent. '
+          'The pthread barrier is a call to pthread_barrier_wait (external, trusted). Not decided: weak-memory executions, condition-variable notification semantics (spurious wake-ups allowed, lost '
+          'notifications not modelled), reinit while threads are inside, Substrate.cpp barrier selection. Trusted: interference stubs gv_cells.h / gv_sc.h, spin loop = blocking wait in the bounded runs, '
+          'flag array capacity 4 instead of 32 in the dissemination runs.'))
+
 NA = {
     'C01': 'schedule/worklist-policy property of deeply templated executors (histories of several threads); outside CBMC\'s C++ reach and not a per-call contract',
     'C07': 'relation between different executions (determinism across schedules/thread counts) of a ~1000-line template executor; no single-call contract expresses it',
